@@ -349,7 +349,9 @@ static void w_apply(int opi, int check)
     case T_INIT:
         for (i = 0; i < g_nbe; ++i) {
             r[i] = ctr_init(g_c, g_be[i], &W.obj[i]);
-            if (check && r[i] && ctr_backend(g_c, &W.obj[i]) != g_be[i])
+            if (check && r[i] && ctr_backend(g_c, &W.obj[i]) < 0)
+                report("init-left-unknown-vtable", opi, "after init with back end %s available the object's function table is not one of the library's", be_name(g_be[i]));
+            else if (check && r[i] && ctr_backend(g_c, &W.obj[i]) != g_be[i])
                 engine_error("pinning failed: wanted %s got %d", be_name(g_be[i]), ctr_backend(g_c, &W.obj[i]));
         }
         W.phase = PH_LIVE; W.defined = 1; W.ksoff = g_bs; memset(W.counter, 0, 16);
